@@ -170,10 +170,29 @@ def gen_case(rnd, kind):
             return None
         right = apm.Program([apm.SrcFile(f.name, unroll(f.stmts, counts)) for f in prog.files], prog.aux, prog.blobs, prog.charset)
     elif kind == "link":
-        prog, ref, info = tight.gen_program(rnd, nfiles=rnd.choice([2, 3]), opts={"include": False, "insert": rnd.random() < 0.3, "shadow": False})
+        prog, ref, info = tight.gen_program(rnd, nfiles=rnd.choice([2, 3]), opts={"include": False, "insert": rnd.random() < 0.3, "shadow": False, "extern_all": False})
+        if rnd.random() < 0.3:
+            # every file exports through a leading '.extern all' instead of '::' (mixing the two styles in ONE file reports the '::' names
+            # as exported twice, so the concatenation would not be the same program)
+            for f in prog.files:
+                for st in f.stmts:
+                    st.labels = [(n, "label" if kind == "extern" else kind) for n, kind in st.labels]
+                f.stmts.insert(0, apm.extern("all"))
+            try:
+                apm.Ref(prog).run()
+            except (apm.RefError, apm.Unmodelled):
+                return None
         merged = []
+        seen_all = False
         for f in prog.files:
-            merged.extend(f.stmts)
+            for st in f.stmts:
+                if st.k == "extern" and "all" in [n.lower() for n in st.names]:
+                    # in ONE file the first '.extern all' already covers everything after it; a second one would export the
+                    # same names twice
+                    if seen_all:
+                        continue
+                    seen_all = True
+                merged.append(st)
         right = apm.Program([apm.SrcFile(prog.files[0].name, merged)], prog.aux, prog.blobs, prog.charset)
     elif kind == "insert":
         prog, ref, info = tight.gen_program(rnd, opts={"include": False, "insert": True})
